@@ -117,3 +117,20 @@ Proof.
     destruct (updateImpl true c1 false t cap2 []) as [[x2 c2] t2]. reflexivity. }
   rewrite R1, R2, R3, R4. auto.
 Qed.
+
+(* the bound computed from the caller's preferences is the bound for the preferences the
+   context keeps (blockSizeID 0 replaced by the default) *)
+Lemma cb_begin_prefs : forall p n, valid_bsid0 (p_bsid p) = true -> 0 <= n ->
+  compressBound n (Some (begin_prefs (Some p))) = compressBound n (Some p) /\
+  compressBound_internal n (Some (begin_prefs (Some p))) 0 = compressBound_internal n (Some p) 0.
+Proof.
+  intros p n Hv Hn. destruct (begin_prefs_some p) as (Hg & Ha & Hc & Hcc & Hcs).
+  pose proof (bsid_in_range_valid0 _ (begin_prefs_range (Some p) Hv)) as Hv'.
+  pose proof (getBlockSize_vbs _ Hv) as Hb. apply vbs_pos in Hb.
+  split.
+  - rewrite (cb_eq n (begin_prefs (Some p)) Hv' Hn), (cb_eq n p Hv Hn).
+    rewrite Hg, Ha, Hc. unfold frameEnd. rewrite Hcc. reflexivity.
+  - rewrite (cbi_t n (begin_prefs (Some p)) 0 Hv' Hn) by (rewrite Hg; lia).
+    rewrite (cbi_t n p 0 Hv Hn) by lia.
+    rewrite Hg, Ha, Hc. unfold frameEnd. rewrite Hcc. reflexivity.
+Qed.
